@@ -16,7 +16,7 @@ RULE = ("(i) exhaustive: every payload length 0..12 x every first byte the class
 ASSUMPTIONS = ["64-bit Go int",
                "nazalog.Assert with the default behaviour (log only)",
                "file-system calls of the recorders / hls muxer succeed (memory file system for hls, a temp dir for the recorders)",
-               "wall-clock per message is measured, not proved: only > 1 s for a <= 64 KiB message fails the check",
+               "wall-clock per message is measured, not proved: only > 2 s for a <= 64 KiB message fails the check (largest observed: a few ms)",
                "the theorem covers the modelled call tree only (listed in design.d/C05.md); cross-stream isolation and scheduler stalls are runtime behaviour"]
 FULL_OUTPUT = True
 
@@ -269,6 +269,130 @@ def sps_tail_cases():
     yield avc_seq_header(F13_AVC_SPS, AVC_PPS)
 
 
+# --------------------------------------------------------------------------
+# SPS whose COUNT fields are huge while the data ends right behind them: the time a sequence header takes must
+# depend on its size, not on a value it carries (pic_order_cnt cycle, scaling lists, sub-layer loops, every ue(v))
+def _bits(prefix, fields, pad):
+    from gen import c19_ps
+    c19_ps.f_pad[0] = pad
+    try:
+        return c19_ps.raw_bits_sps(prefix, fields)
+    finally:
+        c19_ps.f_pad[0] = 0
+
+
+UE0 = (1, 1)                                   # ue(v) / se(v) of value 0
+HUGE_UE = [("z", 8, 255), ("z", 16, 65535), ("z", 30, (1 << 30) - 1), ("z", 31, 0), ("z", 31, (1 << 31) - 2), ("z", 31, (1 << 31) - 1),
+           ("z", 32, 0), ("z", 32, (1 << 32) - 1), ("z", 33, 5), ("z", 40, 1), ("z", 62, 3)]
+
+
+def avc_loop_sps():
+    """(label, sps bytes)"""
+    out = []
+    # baseline profile, pic_order_cnt_type = 1: sps_id, log2_max_frame_num, poc_type=1 '010', delta_always_zero, 2 x se, cycle count, offsets
+    head66 = [UE0, UE0, ("z", 1, 0), (1, 0), UE0, UE0]
+    # high profile: sps_id, chroma_format_idc=1, bit depths, bypass, scaling matrix flag
+    head100 = [UE0, ("z", 1, 0), UE0, UE0, (1, 0)]
+    for pad in (0, 1):
+        for cnt in [("z", 0, 0), ("z", 1, 0), ("z", 2, 3)] + HUGE_UE:
+            for k in ((0, 1, 3) if cnt[1] < 30 else (0,)):
+                out.append(("avc-poc-cycle", _bits([0x67, 66, 0, 30], head66 + [cnt] + [UE0] * k, pad)))
+                out.append(("avc-poc-cycle", _bits([0x67, 100, 0, 30], head100 + [(1, 0)] + head66[1:] + [cnt] + [UE0] * k, pad)))
+        # scaling matrix present, every list present, data ends inside / right behind the lists
+        for nlists in (0, 1, 6, 7, 8):
+            for deltas in (0, 1, 15, 16, 63, 64):
+                f = head100 + [(1, 1)] + [(1, 1)] * nlists + [UE0] * deltas
+                out.append(("avc-scaling", _bits([0x67, 100, 0, 30], f, pad)))
+                out.append(("avc-scaling", _bits([0x67, 244, 0, 30], [UE0, ("z", 2, 0), (1, 0)] + f[2:], pad)))   # chroma_format_idc 3: 12 lists
+        # every ue(v) of a complete baseline SPS in turn huge, the data ending right behind it
+        full = [UE0, UE0, ("z", 1, 1), ("z", 2, 1), (1, 0), ("z", 5, 8), ("z", 4, 13), (1, 1), (1, 1), (1, 1), UE0, UE0, UE0, UE0, (1, 0)]
+        for i, f in enumerate(full):
+            if f[0] == "z" or f == UE0:
+                for h in HUGE_UE[2:]:
+                    out.append(("avc-ue-huge", _bits([0x67, 66, 0, 30], full[:i] + [h], pad)))
+                    out.append(("avc-ue-huge", _bits([0x67, 66, 0, 30], full[:i] + [h] + full[i + 1:], pad)))
+    return out
+
+
+def hevc_loop_sps():
+    ptl = [(2, 0), (1, 0), (5, 1), (32, 0x60000000), (32, 0x90000000), (16, 0), (8, 93)]
+    out = []
+    for pad in (0, 1):
+        for maxsub in (0, 1, 6, 7):
+            sub = []
+            if maxsub:
+                sub = [(1, 1), (1, 1)] * maxsub + [(2, 0)] * (8 - maxsub)
+            for nsub in range(0, maxsub + 1, max(1, maxsub // 2)):
+                body = [(32, 1), (32, 2), (24, 3), (8, 90)] * nsub
+                head = [(4, 0), (3, maxsub), (1, 1)] + ptl + sub + body
+                out.append(("hevc-sublayers", _bits([0x42, 0x01], head, pad)))
+                tail = [UE0, ("z", 1, 0), ("z", 10, 896), ("z", 10, 64), (1, 0), UE0, UE0, ("z", 2, 1), (1, 1)] + [UE0] * 3 * (maxsub + 1) + [UE0] * 6
+                if nsub == maxsub:
+                    out.append(("hevc-sublayers", _bits([0x42, 0x01], head + tail + [(1, 1)], pad)))
+                    for i, f in enumerate(tail):
+                        if f[0] == "z" or f == UE0:
+                            for h in (HUGE_UE[3], HUGE_UE[5], HUGE_UE[7], HUGE_UE[9]):
+                                out.append(("hevc-ue-huge", _bits([0x42, 0x01], head + tail[:i] + [h], pad)))
+                                if i % 4 == 0:
+                                    out.append(("hevc-ue-huge", _bits([0x42, 0x01], head + tail[:i] + [h] + tail[i + 1:], pad)))
+    return out
+
+
+def sps_loop_cases():
+    """(class, video payload): well-framed sequence headers around those SPS"""
+    seen = set()
+    for cls, sps in avc_loop_sps():
+        if sps not in seen:
+            seen.add(sps)
+            yield cls, avc_seq_header(sps, AVC_PPS)
+    for cls, sps in hevc_loop_sps():
+        if sps not in seen:
+            seen.add(sps)
+            yield cls, hevc_seq_header(HEVC_VPS, sps, HEVC_PPS)
+            if len(seen) % 3 == 0:
+                yield cls, hevc_seq_header(HEVC_VPS, sps, HEVC_PPS, enhanced=True)
+
+
+def boundary_cases():
+    """(class, history): an rtsp consumer in PLAY and waiting for a GOP start (out_wait_key_frame_flag) while the publisher
+    sends nal units whose first bytes are the ones rtprtcp.IsAvcBoundary / IsHevcBoundary index: STAP-A 24 (b[3]),
+    FU-A 28 (b[1]), hevc AP 48 / FU 49 (b[2]), in nal units of 1..5 bytes, in the audio body of g711 / opus too"""
+    cfgs = ["se=1,wk=1", ALL_ON]
+    inter = {"avc": bytes.fromhex("2701000000"), "hevc": bytes.fromhex("2c01000000"), "ehevc": bytes([0xa3]) + b"hvc1"}
+    pre = {"avc": PREAMBLE_AVC, "hevc": PREAMBLE_HEVC, "ehevc": PREAMBLE_EHEVC}
+    heads = {"avc": [0x18, 0x78, 0x1c, 0x7c, 0x5c, 0x05, 0x65, 0x67, 0x41, 0x00],
+             "hevc": [0x60, 0x61, 0x62, 0x63, 0x26, 0x40, 0x02, 0x00],
+             "ehevc": [0x60, 0x62, 0x26, 0x02]}
+    tails = [b"", b"\x00", b"\x85", b"\x00\x01", b"\x01\x93", b"\x00\x01\x65", b"\x01\x00\x07", b"\x00\x02\x67\x42", b"\x01\x93\xa6\x00"]
+    for codec in ("avc", "hevc", "ehevc"):
+        for h in heads[codec]:
+            for t in tails:
+                nal = bytes([h]) + t
+                for ci, cfg in enumerate(cfgs):
+                    if ci == 1 and len(t) not in (0, 2):
+                        continue
+                    # consumer joins after the key frame: it waits; the hostile nal; then a key frame releases it
+                    evs = pre[codec] + ["Js:5", P(9, 40, inter[codec] + avcc(nal)), P(9, 80, {"avc": AVC_IDR, "hevc": HEVC_IDR, "ehevc": EHEVC_KEYX}[codec])]
+                    yield "bcast-rtsp-boundary", cfg, evs
+                if len(t) in (0, 2, 3):
+                    # two consumers: one that sent DESCRIBE before the stream had a description, one in between
+                    evs = ["Js:5"] + pre[codec][:2] + ["Js:6"] + pre[codec][2:] + [P(9, 40, inter[codec] + avcc(bytes([0x41, 0x9a]), nal))]
+                    yield "bcast-rtsp-boundary", cfgs[0], evs
+        # the same bytes as the RTP body of an audio packet (g711 / opus are carried raw)
+        for a in (0x72, 0x82, 0xd2):
+            for h in heads["avc"][:5] + heads["hevc"][:4]:
+                for t in tails[:6]:
+                    evs = pre[codec][:1] + [P(8, 0, bytes([a, 0x55, 0x55]))] + pre[codec][2:] + ["Js:5", P(8, 40, bytes([a, h]) + t)]
+                    yield "bcast-rtsp-boundary-audio", cfgs[0], evs
+    # fragmented nal units (FU-A / hevc FU): start fragment of a key / non-key nal while the consumer waits
+    for codec, hs in (("avc", [0x65, 0x41, 0x67, 0x1c]), ("hevc", [0x26, 0x02, 0x40, 0x62])):
+        for h in hs:
+            for n in (1199, 1200, 1201, 2500):
+                nal = bytes([h, 0x01]) + bytes((i * 7) & 0xff for i in range(n - 2))
+                evs = pre[codec] + ["Js:5", P(9, 40, inter[codec] + avcc(nal)), P(9, 60, inter[codec] + avcc(bytes([hs[1], 1, 2])))]
+                yield "bcast-rtsp-boundary-fu", cfgs[0], evs
+
+
 def drop_empty(evs):
     """the remuxers sit behind the group's empty-payload gate"""
     return [e for e in evs if not e.endswith(":-")]
@@ -281,6 +405,15 @@ def gen_cases(tier, rng):
         yield bcast(ALL_ON, JOINS + [P(9, 0, b), P(9, 40, AVC_P)], "bcast-sps-tail")
         yield Case("c05.rtsp 0 %s" % ";".join([P(9, 0, b), P(8, 0, AAC_SH), P(9, 40, AVC_IDR)]), cls="rtsp-sps-tail")
         yield Case("c05.ts %s" % ";".join([P(9, 0, b), P(8, 0, AAC_SH), P(9, 40, AVC_IDR)]), cls="ts-sps-tail")
+    # (0b) SPS with huge loop counts and no data behind them, as the first sequence header of a publish (the stat block
+    #      parses it) and behind a valid one; a message that takes more than 2 s is reported `slow` by the Go side
+    for cls, b in sps_loop_cases():
+        yield bcast(ALL_ON, [P(9, 0, b), P(9, 40, AVC_P)], "bcast-sps-loops-" + cls)
+        if not quick:
+            yield bcast("re=1", [P(9, 0, AVC_SH2[:5] + b"\x00" * 3), P(9, 0, b)], "bcast-sps-loops-" + cls)
+    # (0c) rtsp consumers waiting for a GOP start while the nal units the boundary classifiers index arrive
+    for cls, cfg, evs in boundary_cases():
+        yield bcast(cfg, evs, cls)
     # (1) helpers of t_rtmp.go, exhaustive on short payloads
     for t, b in short_payloads():
         yield Case("c05.cls %d %s" % (t, hex_tok(b)), cls="cls-short")
@@ -373,7 +506,7 @@ def gen_cases(tier, rng):
 # observation, oracle, known findings
 T_RE = re.compile(r" t=(\d+)$")
 MAX_WALL_US = [0]
-SLOW_LIMIT_US = 1000000
+SLOW_LIMIT_US = 2000000
 
 KNOWN_SITES = {
     # site -> finding id (F-13, nazabits.(*BitReader).ReadBits32:index, is repaired on the lal side: a panic there is a violation again)
@@ -408,7 +541,7 @@ def oracle(case, impl_out):
     if "timeout" in impl_out or "not-run" in impl_out:
         return (False, "a published message stalled the server (harness timeout)")
     if re.search(r"(^|,)slow(,| |$)", impl_out):
-        return (False, "a message of at most 64 KiB took more than 1 s")
+        return (False, "a message of at most 64 KiB took more than 2 s: its processing time does not depend on its size alone")
     if impl_out.startswith(("err", "bad", "unknown-op")):
         return (False, "harness error: " + impl_out[:80])
     return (True, "")
